@@ -695,3 +695,189 @@ func CaseS(parts ...string) {
 	Count("evaluations")
 	DistinctS(parts...)
 }
+
+// ---------------------------------------------------------------- nested length prefixes
+
+type lenField struct {
+	pos, width int
+	be         bool
+	val        int
+	score      int
+}
+
+func (f lenField) bodyStart() int { return f.pos + f.width }
+func (f lenField) bodyEnd() int   { return f.pos + f.width + f.val }
+
+func getLen(b []byte, pos, width int, be bool) int {
+	v := 0
+	for i := 0; i < width; i++ {
+		if be {
+			v = v<<8 | int(b[pos+i])
+		} else {
+			v |= int(b[pos+i]) << (8 * uint(i))
+		}
+	}
+	return v
+}
+
+func putLen(b []byte, pos, width int, be bool, v int) {
+	for i := 0; i < width; i++ {
+		if be {
+			b[pos+width-1-i] = byte(v >> (8 * uint(i)))
+		} else {
+			b[pos+i] = byte(v >> (8 * uint(i)))
+		}
+	}
+}
+
+// LenPrefixRewrites returns variants of a valid encoding in which one
+// length-prefixed element was emptied, shortened or lengthened by one octet
+// AND every enclosing length prefix was corrected accordingly, so that the
+// outer layers of a nested format still parse and the altered element reaches
+// the code behind them (an in-place edit of a nested field only misaligns the
+// outer structure and is refused early).  Length prefixes are found
+// heuristically: every 16- or 32-bit field, either byte order, whose value
+// spans a body that ends inside the buffer and lines up with the end of the
+// buffer, with the start of another such field, or with the end of an
+// enclosing one.  At most maxFields fields are rewritten, spread evenly over the buffer.
+func LenPrefixRewrites(valid []byte, maxFields int) [][]byte {
+	n := len(valid)
+	if n < 4 || n > 1<<20 {
+		return nil
+	}
+	var cands []lenField
+	var starts map[int]bool
+	var ends map[int]int
+	for pos := 0; pos+2 <= n; pos++ {
+		for _, w := range []int{2, 4} {
+			if pos+w > n {
+				continue
+			}
+			for _, be := range []bool{false, true} {
+				v := getLen(valid, pos, w, be)
+				if v <= 0 || pos+w+v > n {
+					continue
+				}
+				cands = append(cands, lenField{pos: pos, width: w, be: be, val: v})
+			}
+		}
+	}
+	// Alignment is judged against the other plausible fields only: start from
+	// all candidates and prune to a fixed point (a field inside random-looking
+	// payload lines up with "some two octets that could be a length" almost
+	// always, but rarely with a field that itself survives).
+	good := cands
+	for iter := 0; iter < 4; iter++ {
+		starts = map[int]bool{}
+		ends = map[int]int{}
+		for _, c := range good {
+			starts[c.pos] = true
+			ends[c.bodyEnd()]++
+		}
+		var next []lenField
+		for _, c := range good {
+			s := 0
+			if c.bodyEnd() == n {
+				s += 2
+			}
+			if starts[c.bodyEnd()] {
+				s++
+			}
+			if ends[c.bodyEnd()] > 1 {
+				s++
+			}
+			if c.val >= 8 {
+				s++
+			}
+			// followed by an empty element (a zero 16- or 32-bit prefix) that lines up
+			if ends[c.bodyEnd()+2] > 0 || ends[c.bodyEnd()+4] > 0 || c.bodyEnd()+2 == n || c.bodyEnd()+4 == n {
+				s++
+			}
+			if s >= 2 {
+				c.score = s
+				next = append(next, c)
+			}
+		}
+		if len(next) == len(good) {
+			good = next
+			break
+		}
+		good = next
+	}
+	// keep the best aligned ones, then spread the budget evenly over the
+	// buffer (fields at the end of a format matter as much as the first ones)
+	sort.SliceStable(good, func(i, j int) bool {
+		if good[i].score != good[j].score {
+			return good[i].score > good[j].score
+		}
+		return good[i].pos < good[j].pos
+	})
+	if len(good) > 8*maxFields {
+		good = good[:8*maxFields]
+	}
+	sort.SliceStable(good, func(i, j int) bool { return good[i].pos < good[j].pos })
+	pick := good
+	if len(good) > maxFields {
+		pick = nil
+		for i := 0; i < maxFields; i++ {
+			pick = append(pick, good[i*len(good)/maxFields])
+		}
+	}
+	var out [][]byte
+	seen := map[string]bool{}
+	emit := func(b []byte) {
+		k := string(b)
+		if !seen[k] {
+			seen[k] = true
+			out = append(out, b)
+		}
+	}
+	for _, f := range pick {
+		deltas := []int{-f.val, -1, +1}
+		if f.val > 16 {
+			deltas = append(deltas, -f.val+1, -16, -8, -4, -2)
+		}
+		// enclosing prefixes: they all lie in front of the edit point; a format
+		// uses one byte order throughout, so only fields of f's byte order count
+		var encl []lenField
+		for _, g := range good {
+			if g == f || g.be != f.be || g.bodyStart() > f.pos || g.bodyEnd() < f.bodyEnd() {
+				continue
+			}
+			encl = append(encl, g)
+		}
+		build := func(delta int, skip int) []byte {
+			var b []byte
+			switch {
+			case delta < 0:
+				b = append(b, valid[:f.bodyEnd()+delta]...)
+				b = append(b, valid[f.bodyEnd():]...)
+			default:
+				b = append(b, valid[:f.bodyEnd()]...)
+				b = append(b, valid[f.bodyEnd()-1])
+				b = append(b, valid[f.bodyEnd():]...)
+			}
+			putLen(b, f.pos, f.width, f.be, f.val+delta)
+			for i, g := range encl {
+				if i != skip && g.val+delta > 0 {
+					putLen(b, g.pos, g.width, g.be, g.val+delta)
+				}
+			}
+			return b
+		}
+		for _, delta := range deltas {
+			if f.val+delta < 0 {
+				continue
+			}
+			emit(build(delta, -1))
+			// a coincidental "enclosing field" inside payload would be corrupted
+			// by the correction: also leave each one out in turn
+			if (delta == -f.val || delta == -8) && len(encl) > 2 && len(encl) <= 6 {
+				for k := range encl {
+					emit(build(delta, k))
+				}
+			}
+		}
+	}
+	return out
+}
